@@ -86,17 +86,51 @@ def norm(kind, r):
     return (kind, r.version, r.code, r.reason, [(n.lower(), v) for n, v in r.headers], bytes(r.body))
 
 
-async def feed(stream, cuts, n_http):
+class _SinkTransport:
+    def is_closing(self):
+        return False
+
+    def writelines(self, lines):
+        pass
+
+    def write(self, data):
+        pass
+
+    def write_eof(self):
+        pass
+
+    def close(self):
+        pass
+
+    def get_write_buffer_size(self):
+        return 0
+
+
+async def feed(stream, cuts, n_http, sends=()):
+    """sends: indices into the read sequence after which the application issues a request of its own (a message that is half received at
+    that moment must still be completed by the bytes that follow)."""
+    import asyncio
     log = []
     p = InsecureHomeKitProtocol(_Conn(log))
-    p.result_cbs = [_Fut(log) for _ in range(n_http + 2)]
+    p.transport = _SinkTransport()
+    # two spare waiters reveal a response that is delivered twice; with sends of our own there are none, so that the protocol
+    # really has nothing outstanding when only EVENT messages are left
+    p.result_cbs = [_Fut(log) for _ in range(n_http + (0 if sends else 2))]
     pos = 0
-    for c in list(cuts) + [len(stream)]:
+    tasks = []
+    for i, c in enumerate(list(cuts) + [len(stream)]):
         if c <= pos:
             continue
         p.data_received(stream[pos:c])
         pos = c
-    return [norm(k, r) if k != "EXC" else (k, repr(r)) for k, r in log], sum(1 for f in p.result_cbs if not f.done())
+        if i in sends and pos < len(stream):
+            tasks.append(asyncio.ensure_future(p.send_bytes(b"GET /x HTTP/1.1\r\n\r\n")))
+            await asyncio.sleep(0)
+    for t in tasks:
+        t.cancel()
+    if tasks:
+        await asyncio.gather(*tasks, return_exceptions=True)
+    return [norm(k, r) if k != "EXC" else (k, repr(r)) for k, r in log], sum(1 for f in p.result_cbs if not f.done() and isinstance(f, _Fut))
 
 
 def run_case(case, R):
@@ -129,7 +163,7 @@ def run_case(case, R):
     async def go():
         for cs in cutsets:
             try:
-                got, unresolved = await feed(stream, cs, n_http)
+                got, unresolved = await feed(stream, cs, n_http, case.get("sends", ()))
             except Exception as e:  # noqa: BLE001
                 R.fail("C07.parser-raises", f"cuts {cs[:6]} of {stream[:300]!r}: {type(e).__name__}: {e}", exc=type(e).__name__)
                 return
@@ -137,8 +171,9 @@ def run_case(case, R):
                 R.fail("C07.messages-differ", f"cuts {cs[:6]} of {stream[:300]!r}: delivered {got!r:.500} expected {expected!r:.500}",
                        modes="+".join(sorted({m['mode'] for m in msgs})))
                 return
-            if unresolved != 2:
-                R.fail("C07.messages-differ", f"cuts {cs[:6]}: {unresolved - 2} responses not delivered", modes="count")
+            spare = 0 if case.get("sends") else 2
+            if unresolved != spare:
+                R.fail("C07.messages-differ", f"cuts {cs[:6]}: {unresolved - spare} responses not delivered", modes="count")
                 return
     vtime.run_shared(go())
 
@@ -188,7 +223,8 @@ def random_cut_cases(draw):
         cuts = "drip"
     else:
         cuts = draw(st.lists(st.integers(1, 20000), min_size=0, max_size=12))
-    return {"msgs": msgs, "cuts": cuts}
+    sends = draw(st.lists(st.integers(0, 12), max_size=3)) if draw(st.integers(0, 2)) == 0 else []
+    return {"msgs": msgs, "cuts": cuts, "sends": sends}
 
 
 @st.composite
@@ -202,7 +238,8 @@ def all_cut_cases(draw, which):
                 msgs[0] = dict(msgs[0], body=bytes(msgs[0]["body"])[:200])
     else:
         msgs = draw(st.lists(message(small=True), min_size=1, max_size=2))
-    return {"msgs": msgs, "cuts": which}
+    # in a third of the cases the application sends a request right after the first read
+    return {"msgs": msgs, "cuts": which, "sends": [0] if draw(st.integers(0, 2)) == 0 else []}
 
 
 def run_secure(case, R):
